@@ -317,6 +317,9 @@ def run(chk):
                               f"{cls.name}.write_with_length hands a chunk to the writer without truncating it to the remaining declared length: a read that returns more bytes than asked for (text-mode files count characters; the first read is uncapped when the remainder is 0) puts surplus bytes on the connection after the declared body")
     chk.expect_count("C04.length", n_cap, 7, "writer.write calls in write_with_length implementations")
     bodiless(chk, repo)
+    from rules import C19 as _C19
+
+    _C19.textsize(chk, repo, "C04.length")
     # ---- shared ------------------------------------------------------------------------------------------------------------------------
     from rules import C02, C19
 
